@@ -18,6 +18,7 @@ CONSTANTS
 N_all == { T("a"), T("Ab"), T("B2"), T("b"), T("C") }      \* strcasecmp: a < Ab < b < B2 < C ; strcmp: Ab < B2 < C < a < b
 N_4   == { T("a"), T("B2"), T("b"), T("C") }
 N_3   == { T("a"), T("B2"), T("b") }
+N_1   == { T("B2") }
 
 None == << >>
 O(s) == << T(s) >>
@@ -26,11 +27,11 @@ Acct_rich  == { None, O("alice"), O("al*"), O("*ce"), O("a?a*") }
 Addr_rich  == { None, O("10.1.2.0/24"), O("10.1.2.0/23"), O("10.1/16"), O("10.1.*"), O("10.1.2.3"), O("0.0.0.0/0"),
                 O("*"), O("::/0"), O("2001:db8::/32"), O("2001:db8::/31"), O("2001:db8:*"), O("2001:db8::1") }
 User_rich  == { None, O("al*"), O("~*"), O("?bob"), O("*b") }
-Host_rich  == { None, O("*.example.org"), O("h?.example.*"), O("*.test") }
+Host_rich  == { None, O("*.example.org"), O("h?.example.*"), O("*.test"), O("10.*") }
 Ok_rich    == { None, O("d1.svc"), O("l1.svc") }
 Class_rich == { None, O("users"), O("Opers") }
 
-CAcct_rich  == { T(""), T("alice"), T("alice:77"), T("alan:1"), T("bob:5") }
+CAcct_rich  == { T(""), T("alice"), T("alice:77"), T("alan:1"), T("bob:5"), T("alice:77:9") }
 CAddr_rich  == { T("10.1.2.3"), T("10.1.3.3"), T("10.2.2.3"), T("192.168.7.9"), T("2001:db8::1"), T("2001:db9::1"),
                  T("2001:db8:0:5::9") }
 CIdent_rich == { T(""), T("alice"), T("~bob"), T("~alice"), T("bob") }
@@ -38,7 +39,7 @@ CHost_rich  == { T(""), T("h1.example.org"), T("h2.example.net"), T("mail.test")
 CUser_rich  == { T("carol"), T("alice"), T("bob"), T("~dave") }
 
 \* small pools: one pattern per criterion, two values per attribute (one matching, one not)
-Acct_1  == { None, O("al*") }
+Acct_1  == { None, O("a*ce") }
 Addr_1  == { None, O("10.1.2.0/23") }
 User_1  == { None, O("~*") }
 Host_1  == { None, O("*.example.org") }
@@ -50,6 +51,7 @@ OnlyFalse == { FALSE }
 
 CAcct_2  == { T(""), T("alice:77") }
 CAddr_2  == { T("10.1.3.3"), T("10.2.2.3") }
+CAddr_1  == { T("10.1.3.3") }
 CIdent_2 == { T("alice"), T("~bob") }
 CHost_1  == { T("h1.example.org") }
 CHost_2  == { T(""), T("h1.example.org") }
@@ -87,6 +89,15 @@ Drone_2   == { StOk, StFinal }
 Drone_1   == { StOk }
 
 Bug_none == {}
+\* model mutants (anti-vacuity of the exhaustive check; each must break VecOrder or one of Impl*)
+Bug_STRCMP   == {"STRCMP"}
+Bug_REVERSE  == {"REVERSE"}
+Bug_LAST     == {"LAST"}
+Bug_NAMEONLY == {"NAMEONLY"}
+Bug_STAMP    == {"STAMP"}
+Bug_CLIUSER  == {"CLIUSER"}
+Bug_XR0      == {"XR0"}
+Bug_TRUSTALL == {"TRUSTALL"}
 
 -----------------------------------------------------------------------------
 (* the case space *)
@@ -104,9 +115,11 @@ XrOf(svcs, f) == [i \in 1..Len(svcs) |-> [svc |-> svcs[i].name, ok |-> f[i].ok, 
 
 XrSet(svcs) == {XrOf(svcs, f) : f \in {g \in [1..Len(svcs) -> DroneSt \cup LoginSt] : \A i \in 1..Len(svcs) : g[i] \in StatesOf(svcs[i])}}
 
-(* an account can only have come with an OK of a login-type service *)
+(* an account can only have come with an OK of a login-type service; a service can only be asked again after  *)
+(* its OK while another service still keeps the request open                                                  *)
 Consistent(svcs, c) ==
-    c.acct # << >> => \E i \in 1..Len(svcs) : svcs[i].type # "dronecheck" /\ c.xr[i].ok
+    /\ c.acct # << >> => \E i \in 1..Len(svcs) : svcs[i].type # "dronecheck" /\ c.xr[i].ok
+    /\ \A i \in 1..Len(svcs) : (c.xr[i].ok /\ c.xr[i].ref) => Len(svcs) >= 2
 
 Clients(svcs) == {c \in [addr : CAddr, host : CHost, ident : CIdent, user : CUser, acct : CAcct, xr : XrSet(svcs)] :
                 Consistent(svcs, c)}
